@@ -957,6 +957,21 @@ pub fn run_c04(tier: &str, seed: u64, workers: usize) -> i32 {
         "one run = 1..3 push programs (1..12 pushes each over all 11 command kinds, data lengths around the remaining capacity, overrides below/equal/above, fill-the-rest pushes of 0..2*capacity) into a drawn frame size, each after dirtying the slot (abandoned build, abandoned in flight, or a full response of ones); accept/refuse decisions, reported counts and every transmitted byte are compared with an independent encoder; non-trivial = a frame was compared and at least one boundary event (refusal, cut or empty fill) occurred; distinct = distinct hash of the accepted datagram bytes",
         &c04_case,
     );
+    // The same clauses for every frame handed to the driver while deadlines expire, requests are
+    // retried or abandoned at any instant and sends fail: the fibre-engine scenario of C06 with only
+    // the wire monitor (frame well-formed, says what was asked, unchanged while the driver holds it,
+    // retransmissions identical) and the result oracles active.
+    let thorough = tier == "thorough";
+    let f = move |rs: u64, nonce: u64, replay: Option<Vec<u32>>| crate::c_pdu::case(crate::pduscen::Prop::C04, thorough, rs, nonce, replay);
+    let (runs, wall) = if thorough { (10_000_000u64, 300u64) } else { (600_000u64, 20u64) };
+    pr.replay_witnesses("wire-monitor-under-faults", &f);
+    pr.batch(
+        "wire-monitor-under-faults",
+        runs,
+        wall,
+        "one run = 1..3 application fibres, TX and RX fibres on 1..4 slots with deadlines, retries, loss, send errors, partial sends, duplicates, premature copies and abandonment at any instant; every frame the send closure is given is decoded independently (well-formedness clauses), compared with what its request asked for, re-read while the driver holds it, and retransmissions are compared with the first transmission; non-trivial = a fault fired and at least two frames were transmitted; distinct = hash of the full event trace",
+        &f,
+    );
     pr.finish()
 }
 
